@@ -304,10 +304,19 @@ pub fn gen_prot_with(g: &mut Gen, ctx: &mut Ctx, content: Option<Item>) -> Resul
             if g.ratio(1, 8) {
                 // the application edits the parsed view after decoding (public fields): the retained
                 // bytes still are what goes into every structure and every re-encoding
-                match g.below(4) {
+                match g.below(6) {
                     0 => value.header.alg = Some(coset::Algorithm::Assigned(coset::iana::Algorithm::ES256)),
                     1 => value.header.key_id = g.nonempty_bytes(),
                     2 => value.header.rest.push((coset::Label::Int(70000 + g.range_i64(0, 9)), coset::cbor::value::Value::Null)),
+                    // the edited view need not even be encodable (a label twice; a label of a typed field)
+                    3 => {
+                        value.header.rest.push((coset::Label::Int(70000), coset::cbor::value::Value::Null));
+                        value.header.rest.push((coset::Label::Int(70000), coset::cbor::value::Value::Null));
+                    }
+                    4 => {
+                        value.header.key_id = vec![1];
+                        value.header.rest.push((coset::Label::Int(4), coset::cbor::value::Value::Null));
+                    }
                     _ => value.header = Header::default(),
                 }
                 ctx.class("protected:from-wire-then-view-edited");
